@@ -231,3 +231,60 @@ Theorem c12_src_rotate : forall (d : @deque Z) n0 fuel,
   end.
 Proof. exact src_rotate. Qed.
 Print Assumptions c12_src_rotate.
+
+(* resize, growIfFull, shrinkIfExcess translated whole (make, copy, the slices of q.buf, the
+   writes to q.buf / q.head / q.tail / q.minCap) are the model's functions on token elements:
+   the fields they leave are the model's, and they panic exactly when the model says None *)
+Theorem c12_src_grow_shrink : forall (d : @deque Z), - 2 ^ 61 < count d < 2 ^ 61 ->
+  go_Deque_resize (head d) (tail d) (buf d) (count d) =
+    lift_d (fun d' => (head d', tail d', buf d')) (resize 0 d) /\
+  go_Deque_growIfFull (minCap d) (buf d) (head d) (tail d) (count d) =
+    lift_d (fun d' => (minCap d', buf d', head d', tail d')) (grow_if_full 0 d) /\
+  go_Deque_shrinkIfExcess (head d) (tail d) (buf d) (minCap d) (count d) =
+    lift_d (fun d' => (head d', tail d', buf d')) (shrink_if_excess 0 d).
+Proof. intros d H. exact (conj (src_resize d H) (conj (src_grow d H) (src_shrink d H))). Qed.
+Print Assumptions c12_src_grow_shrink.
+
+(* PushBack / PushFront / PopFront / PopBack translated whole, with the calls of growIfFull,
+   shrinkIfExcess, next, prev and the ring-buffer writes *)
+Theorem c12_src_push : forall (d : @deque Z) a,
+  cap d < 2 ^ 62 -> minCap d < 2 ^ 62 -> - 2 ^ 61 < count d < 2 ^ 61 ->
+  - 2 ^ 61 < head d < 2 ^ 61 -> - 2 ^ 61 < tail d < 2 ^ 61 ->
+  go_Deque_PushBack (minCap d) (buf d) (head d) (tail d) (count d) a = lift_d push_fields (push_back 0 d a) /\
+  go_Deque_PushFront (minCap d) (buf d) (head d) (tail d) (count d) a = lift_d push_fields (push_front 0 d a).
+Proof. intros d a Hc Hm Hn Hh Ht. exact (conj (src_push_back d a Hc Hm Hn Ht) (src_push_front d a Hc Hm Hn Hh)). Qed.
+Print Assumptions c12_src_push.
+
+Theorem c12_src_pop : forall (d : @deque Z),
+  cap d < 2 ^ 62 -> - 2 ^ 61 < count d < 2 ^ 61 -> 0 < count d ->
+  - 2 ^ 61 < head d < 2 ^ 61 -> - 2 ^ 61 < tail d < 2 ^ 61 ->
+  go_Deque_PopFront (buf d) (head d) (count d) (tail d) (minCap d) =
+    match pop_front 0 d with
+    | Some (d2, ret) => Lib.GoSem.Ok (ret, buf d2, head d2, count d2, tail d2)
+    | None => Lib.GoSem.Panic
+    end /\
+  go_Deque_PopBack (tail d) (buf d) (count d) (head d) (minCap d) =
+    match pop_back 0 d with
+    | Some (d2, ret) => Lib.GoSem.Ok (ret, tail d2, buf d2, count d2, head d2)
+    | None => Lib.GoSem.Panic
+    end.
+Proof. intros d Hc Hn Hp Hh Ht. exact (conj (src_pop_front d Hc Hn Hh Hp) (src_pop_back d Hc Hn Ht Hp)). Qed.
+Print Assumptions c12_src_pop.
+
+(* EVERY call of the model's [step] - PushBack, PushFront, PopFront, PopBack, Front, Back, At,
+   Set, Clear (its loop, at most len(q.buf)+1 iterations as in the model), Rotate,
+   SetMinCapacity - is the translated method run on the deque's fields ([go_step]): the same
+   deque afterwards, the same value returned, and a Go panic (explicit or run-time) or a loop
+   that does not end exactly where the model says OPanic / OCrash.  Hypotheses: sizes and
+   indices below 2^61 (no int overflow in count<<1, count<<2, head+i), arguments of their Go
+   types, Rotate on an allocated buffer *)
+Theorem c12_src_step : forall (d : @deque Z) (o : op Z),
+  cap d < 2 ^ 62 -> minCap d < 2 ^ 62 -> - 2 ^ 61 < count d < 2 ^ 61 ->
+  - 2 ^ 61 < head d < 2 ^ 61 -> - 2 ^ 61 < tail d < 2 ^ 61 -> arg_ok d o ->
+  match go_step d o with
+  | Lib.GoSem.Ok r => Model.step 0 d o = r
+  | Lib.GoSem.Panic => Model.step 0 d o = (d, OPanic) \/ Model.step 0 d o = (d, OCrash)
+  | Lib.GoSem.OutOfFuel => Model.step 0 d o = (d, OCrash)
+  end.
+Proof. exact src_step. Qed.
+Print Assumptions c12_src_step.
